@@ -194,3 +194,140 @@ def rule_merge_slices(prog: Program, report: Report) -> None:
         else:
             report.ob("RM-merge", key, f"Slice({a}+{b}): open_start from {a}, open_end from {b}, glued sides tested closed")
     report.expect_at_least("RM-merge", "merged slice constructions", n, 2)
+
+
+# ------------------------------------------------------------------------ RP
+FITTER = "prosemirror/transform/replace.py"
+
+
+def rule_rp_fitter(prog: Program, report: Report) -> None:
+    """Fitter: `placed` and `frontier[d].match` are parallel state ("match =
+    state after everything placed at depth d").  Every placed-update at depth D
+    is paired, on every path, with an assignment to the match of the frontier
+    item at D (unless level D was just popped); every frontier item pushed for
+    a node carries the match state after that node's content."""
+    report.rules.append("RP-fitter")
+    n_pl = 0
+    n_push = 0
+    for fn in prog.all_funcs():
+        if fn.module.rel != FITTER or fn.cls is None or fn.cls.name != "Fitter":
+            continue
+        v = view(prog, fn.key)
+        # aliases: top = self.frontier[self.depth]
+        alias: dict[str, str] = {}
+        for a in v.find(lambda n: isinstance(n, ast.Assign)):
+            if len(a.targets) == 1 and isinstance(a.targets[0], ast.Name) and isinstance(a.value, ast.Subscript) and src(a.value.value) == "self.frontier":
+                alias[a.targets[0].id] = src(a.value.slice)
+        match_assigns: dict[str, list] = {}
+        for a in v.find(lambda n: isinstance(n, ast.Assign)):
+            for t in a.targets:
+                if isinstance(t, ast.Attribute) and t.attr == "match":
+                    d = None
+                    if isinstance(t.value, ast.Subscript) and src(t.value.value) == "self.frontier":
+                        d = src(t.value.slice)
+                    elif isinstance(t.value, ast.Name) and t.value.id in alias:
+                        d = alias[t.value.id]
+                    if d is not None:
+                        match_assigns.setdefault(d, []).append(v.cfg.node_for(a))
+        has_pop = any(isinstance(c, ast.Call) and src(c.func) == "self.frontier.pop" for c in v.find(lambda n: isinstance(n, ast.Call)))
+        for a in v.find(lambda n: isinstance(n, ast.Assign)):
+            if not (len(a.targets) == 1 and src(a.targets[0]) == "self.placed" and isinstance(a.value, ast.Call) and src(a.value.func) == "add_to_fragment" and len(a.value.args) == 3):
+                continue
+            n_pl += 1
+            D = src(a.value.args[1])
+            text = " ".join(src(a).split())[:90]
+            if D == "len(self.frontier)" and has_pop:
+                report.ob("RP-fitter", fn.key, f"`{text}`: level {D} was just popped - no frontier match to keep")
+                continue
+            nodes = [x for x in match_assigns.get(D, []) if x is not None]
+            an = v.cfg.node_for(a)
+            before = bool(nodes) and v.cfg.must_pass(an, nodes)
+            after = bool(nodes) and not v.cfg.reaches(an, v.cfg.exit, avoid=nodes)
+            if before or after:
+                report.ob("RP-fitter", fn.key, f"`{text}` is paired with an update of frontier[{D}].match on every path")
+            else:
+                report.violate("RP-fitter", fn, a, f"`{text}` without advancing frontier[{D}].match", f"content is added to `placed` at depth {D} but the match state of that frontier level is not updated on every path: the next node opened at this level asks a stale match (the port turns upstream's silent null into `assert top_match is not None`)", what="placed/match pairing")
+        for c in v.find(lambda n: isinstance(n, ast.Call) and isinstance(n.func, ast.Name) and n.func.id == "_FrontierItem" and len(n.args) == 2):
+            n_push += 1
+            m = src(c.args[1])
+            creates_with_content = any(isinstance(x, ast.Call) and isinstance(x.func, ast.Attribute) and x.func.attr == "create" and len(x.args) >= 2 for x in v.find(lambda n: isinstance(n, ast.Call)))
+            if ".content_match_at(" in m:
+                report.ob("RP-fitter", fn.key, f"`{src(c)[:80]}`: match state taken after the node's content")
+            elif m.endswith(".content_match") and not creates_with_content:
+                report.ob("RP-fitter", fn.key, f"`{src(c)[:80]}`: node created without content, initial match state")
+            else:
+                report.violate("RP-fitter", fn, c, f"`{src(c)[:80]}` starts at the wrong match state", "the frontier item pushed for a node must carry the match state after that node's content (`node.content_match_at(k)`); this function creates the node with content but pushes the type's initial state", what="frontier push carries the match after the node's content")
+    report.count("RP placed updates", n_pl)
+    report.count("RP frontier pushes", n_push)
+    report.expect_at_least("RP-fitter", "placed updates", n_pl, 4)
+    report.expect_at_least("RP-fitter", "frontier pushes", n_push, 3)
+
+
+def rule_rp_add_step(prog: Program, report: Report) -> None:
+    """Transform.add_step keeps docs/steps/maps aligned: one append each, the
+    old doc recorded before self.doc is replaced, the map of the same step."""
+    report.rules.append("RP-add_step")
+    key = "prosemirror/transform/transform.py::Transform.add_step"
+    fn = prog.func(key)
+    body = [s for s in fn.node.body if not (isinstance(s, ast.Expr) and isinstance(s.value, ast.Constant))]
+    texts = [" ".join(src(s).split()) for s in body]
+    step, doc = fn.params()[1], fn.params()[2]
+    want = [f"self.docs.append(self.doc)", f"self.steps.append({step})", f"self.mapping.append_map({step}.get_map())", f"self.doc = {doc}"]
+    if any(not isinstance(s, (ast.Expr, ast.Assign)) for s in body):
+        raise AnalysisError("RP-add_step: add_step is no longer straight-line (unrecognised idiom)")
+    for w in want:
+        c = texts.count(w)
+        if c == 1:
+            report.ob("RP-add_step", key, f"exactly one `{w}`")
+        else:
+            report.violate("RP-add_step", fn, fn.node, f"`{w}` occurs {c} times", f"add_step must record the old document, the step and the step's own map exactly once each (found {texts})", what="history arrays stay aligned")
+    if texts.count(want[0]) == 1 and texts.count(want[3]) == 1 and texts.index(want[0]) > texts.index(want[3]):
+        report.violate("RP-add_step", fn, fn.node, "old document recorded after self.doc was replaced", "docs[i] must be the document before steps[i]", what="docs.append precedes self.doc = doc")
+    extra = [t for t in texts if t not in want]
+    for t in extra:
+        report.note(f"RP-add_step: additional statement `{t}`")
+
+
+# ------------------------------------------------------------------------ RQ
+def rule_rq(prog: Program, report: Report) -> None:
+    """Raise discipline: every `raise` reachable from a Step.apply / from_json /
+    Node.replace / Node.slice constructs a ValueError-family exception.
+    Reachable asserts are enumerated (not armed)."""
+    from ..callgraph import callgraph
+
+    report.rules.append("RQ")
+    cg = callgraph(prog)
+    tm = prog.types
+    roots = [k for k in prog.funcs if (k.endswith(".apply") or k.endswith(".from_json")) and "/transform/" in k]
+    roots += ["prosemirror/model/node.py::Node.replace", "prosemirror/model/node.py::Node.slice", "prosemirror/model/node.py::Node.from_json", "prosemirror/model/replace.py::Slice.from_json", "prosemirror/model/mark.py::Mark.from_json", "prosemirror/model/fragment.py::Fragment.from_json"]
+    for r in roots:
+        prog.func(r)
+    reach = cg.reachable(roots)
+    value_errors = {"ValueError", "ReplaceError", "TransformError", "UnicodeDecodeError", "UnicodeEncodeError", "json.JSONDecodeError"}
+    # classes deriving from ValueError in the package
+    for key, (m, c) in prog.classes.items():
+        if any(src(b) in value_errors for b in c.bases):
+            value_errors.add(c.name)
+    n_raise = 0
+    asserts = []
+    for k in sorted(reach):
+        fn = prog.funcs[k]
+        if not prog.in_scope(fn.module.rel):
+            continue
+        for n in walk_own(fn.node):
+            if isinstance(n, ast.Assert):
+                asserts.append(f"{k}:{n.lineno}: assert {src(n.test)[:60]}")
+            if isinstance(n, ast.Raise) and n.exc is not None:
+                n_raise += 1
+                exc = n.exc.func if isinstance(n.exc, ast.Call) else n.exc
+                name = src(exc)
+                if name.split(".")[-1] in value_errors:
+                    report.ob("RQ", k, f"raises {name} (ValueError family)")
+                else:
+                    report.violate("RQ", fn, n, f"raise {name}", f"`{' '.join(src(n).split())[:70]}` is reachable from a step's apply/from_json or from Node.replace/slice but {name} is not a ValueError: callers that handle the documented failure (a failed result or a ValueError-family exception) die with an internal error instead", what="reachable raises are ValueError-family")
+    report.xref["RQ reachable asserts (enumerated, not armed: whether a port-added assert can fail is a run-time fact)"] = asserts
+    report.count("RQ roots", len(roots))
+    report.count("RQ reachable functions", len(reach))
+    report.count("RQ reachable raise statements", n_raise)
+    report.count("RQ reachable asserts (not armed)", len(asserts))
+    report.expect_at_least("RQ", "reachable raise statements", n_raise, 10)
